@@ -104,3 +104,27 @@ def const_array_elems(body):
         else:
             out.append(None)
     return out
+
+
+def switch_on_call_result(b, call):
+    """The switch on `discriminant(<dest of call>)` (the dest local itself, possibly through whole-local moves):
+    (bb, term) or None."""
+    dest = call.dest["l"]
+    aliases = {dest}
+    changed = True
+    while changed:
+        changed = False
+        for bi, si, s in b.stmts():
+            if s["k"] == "assign" and not s["p"]["proj"] and s["rv"]["k"] == "use" and s["rv"]["o"]["k"] in ("copy", "move") \
+                    and not s["rv"]["o"]["p"]["proj"] and s["rv"]["o"]["p"]["l"] in aliases and s["p"]["l"] not in aliases \
+                    and len(b.prov.defs.get(s["p"]["l"], [])) == 1:
+                aliases.add(s["p"]["l"])
+                changed = True
+    out = []
+    for bi, t, base in discr_switches(b):
+        if base in aliases:
+            # discriminant of the local itself, not of one of its fields
+            defs = [d for d in b.prov.defs.get(t["discr"]["p"]["l"], []) if d[0] == "S" and d[3]["rv"]["k"] == "discr"]
+            if defs and not defs[0][3]["rv"]["p"]["proj"]:
+                out.append((bi, t))
+    return out[0] if len(out) == 1 else None
